@@ -8,6 +8,9 @@ MC = 'model_checking'
 CONN_NOTE = ('Trusted base: TLC; the RpcConn/RpcConnTrace specifications; the harness\'s in-memory socket.Messages pair standing for the '
              'network at frame granularity; the add-only hooks (build tag verif) reporting the library\'s linearisation points; bounded waits '
              '(3 s) deciding "never completes". Bounds: <= 3-6 calls per connection, fault budgets <= 2, one connection pair per run.')
+TRANS_NOTE = ('Trusted base: TLC; Transport.tla / TransportTrace.tla; in-process servers reached through Transport.Dial over the harness wire; '
+              'hooks stamped under connsMu; real time in units of 6 ms with half a unit of slack; synchronous Call only (R3); R4 for callers not yet registered. '
+              'Bounds: <= 2 addresses, <= 3 callers, MaxConnsPerHost <= 3, clock <= 8 units.')
 CLAIMED = {
  'C01': dict(level=MC, ref='6 C01', technique='TLC model checking of RpcConn + trace validation of TLC-driven executions of the real Conn/Server',
    text='Exhaustive TLC check (all interleavings of <=3-4 outstanding calls, all server completion orders, duplicate/unknown-sequence frames, every I/O mode) that a reply is F(own arguments) and sequence numbers are unique/echoed; TLC behaviours (random + deviation counterexamples EchoWrongSeq, SeqReuse) are replayed through the real code with payload sizes 0..70000 and every recorded trace is validated against the specification with the reply digest recomputed by the caller.',
@@ -27,6 +30,15 @@ CLAIMED = {
  'C06': dict(level=MC, ref='6 C06', technique='TLC model checking of RpcConn + trace validation of TLC-driven executions',
    text='TLC checks ErrToOwner / OkOnlyIfHandlerOk / MarshalFailNoResidue with failing and succeeding calls in flight together; replays compare the error text at the first signal and again after further traffic (ObsErrText), and the pending table after client-side encode failures.',
    note=CONN_NOTE),
+ 'C13': dict(level=MC, ref='6 C13', technique='TLC model checking of Transport.tla + trace validation of pool decisions of the real rpc.Transport',
+   text='Exhaustive TLC check of PoolBound / IdleBound / OpenBound / NoLeak over all interleavings of concurrent getConn (three paths), call registration and return, housekeeping passes, CloseIdleConnections, Close and server kill/restart; TLC behaviours, the counterexamples of DialNoLimit / EnqueueNoLimit / OverflowNotClosed and ungated concurrent bursts (including non-positive and over-large limits) are run on the real Transport; every pool decision, stamped under connsMu, is replayed on the model and the bounds are evaluated in every state.',
+   note=TRANS_NOTE),
+ 'C14': dict(level=MC, ref='6 C14', technique='TLC model checking of Transport.tla + trace validation of pool decisions of the real rpc.Transport',
+   text='TLC checks RightAddress / PooledRightAddress / NoDeadHandout / RecoveryBound with an explicit clock over all spacings of calls relative to KeepAlive, IdleConnTimeout and housekeeping passes and all kill/restart sequences; the counterexamples of NoAliveCheckOnIdle / WrongAddress / NoMarkDead and random behaviours are replayed on the real Transport (housekeeping passes released one by one through a gate, servers killed and restarted), each hand-out is checked against the model (address, dead mark) and each reply carries the identity of the server that answered.',
+   note=TRANS_NOTE),
+ 'C15': dict(level=MC, ref='6 C15', technique='TLC model checking of Transport.tla + trace validation of pool decisions of the real rpc.Transport',
+   text='TLC checks SpareBusy (no housekeeping close while calls are registered) and CloseClosesAll; the counterexamples of IdleCloseIgnoresBusy / RetireBusy / CloseIdleBusy hold a caller between getConn and registration (t.got.gate) while passes run, on the real Transport; the trace specification tracks registered calls per connection and flags any housekeeping close of a busy connection, and the socket count after Close must be zero.',
+   note=TRANS_NOTE),
  'C19': dict(level=MC, ref='6 C19', technique='TLC model checking of RpcConn (CallWithContext) + trace validation of TLC-driven executions',
    text='TLC checks all orders of cancellation versus response (CtxReturnDone / CtxCancel), that an abandoned call stays harmless when its late response is dispatched; replays cancel contexts at TLC-chosen points with sibling calls in flight and validate each trace; the API observation requires ctx error exactly once.',
    note=CONN_NOTE),
